@@ -11,7 +11,7 @@ from __future__ import annotations
 import ast
 
 from ..core import UNKNOWN, AnalysisError, ClassInfo, FuncInfo, body_no_doc, call_name, get_arg, is_self_attr, norm, walk_no_nested
-from ..paths import cfg_of, node_of
+from ..paths import cfg_of, node_of, structural_guards
 from ..strflow import parts
 
 EXPLANATION = (
@@ -578,12 +578,89 @@ def r19e(ctx):
         ctx.report("R19e", inc, inc.node, "increment", "increment no longer adds the length until the value is non-negative")
 
 
+_FIXTURE_F = '''
+def bad(self, table_name: str | list[str] | None = None):
+    return [nr for nr in self.all() if nr.table_name in table_name]
+def ok_narrowed(self, table_name: str | list[str] | None = None):
+    if isinstance(table_name, str):
+        table_name = [table_name]
+    return [nr for nr in self.all() if nr.table_name in table_name]
+def ok_literal(qname: str):
+    return ":" in qname
+'''
+
+
+def _substring_tests(fn: ast.AST) -> list[ast.Compare]:
+    """`value in P` / `value not in P` where P is a parameter that may be a bare str and `value` is not a literal:
+    Python then tests for a substring, not for membership."""
+    params = {a.arg: a for a in fn.args.posonlyargs + fn.args.args + fn.args.kwonlyargs}
+
+    def may_be_str(a: ast.arg) -> bool:
+        if a.annotation is None:
+            return False
+        parts_ = [x.strip() for x in ast.unparse(a.annotation).replace("Optional[", "").split("|")]
+        return "str" in parts_
+
+    # a parameter re-bound to a collection (or narrowed away from str) anywhere in the function is no longer the raw argument
+    rebound = {t.id for n in ast.walk(fn) if isinstance(n, (ast.Assign, ast.AugAssign, ast.AnnAssign)) for t in ast.walk(n) if isinstance(t, ast.Name) and isinstance(t.ctx, ast.Store)}
+    out = []
+    for n in ast.walk(fn):
+        if isinstance(n, ast.Compare) and len(n.ops) == 1 and isinstance(n.ops[0], (ast.In, ast.NotIn)) and isinstance(n.comparators[0], ast.Name):
+            nm = n.comparators[0].id
+            if nm in params and may_be_str(params[nm]) and nm not in rebound and not isinstance(n.left, ast.Constant) and not isinstance(n.left, ast.JoinedStr):
+                def not_str(t, pol):
+                    if isinstance(t, ast.UnaryOp) and isinstance(t.op, ast.Not):
+                        return not_str(t.operand, not pol)
+                    if isinstance(t, ast.BoolOp):
+                        if (isinstance(t.op, ast.And) and pol) or (isinstance(t.op, ast.Or) and not pol):
+                            return any(not_str(v, pol) for v in t.values)
+                        return False
+                    return (not pol) and isinstance(t, ast.Call) and call_name(t) == "isinstance" and len(t.args) == 2 and isinstance(t.args[0], ast.Name) \
+                        and t.args[0].id == nm and "str" in ast.unparse(t.args[1])
+
+                excl = any(not_str(t, pol) for t, pol in _guards(n, fn))
+                if not excl:
+                    out.append(n)
+    return out
+
+
+def _guards(n, fn):
+    try:
+        return structural_guards(n, stop=fn)
+    except Exception:  # noqa: BLE001  (fixture nodes carry no parent links)
+        return []
+
+
+def r19f(ctx):
+    """Names are matched whole.
+
+    A table name, range name or address handed to a lookup selects the objects whose name *equals* it.  `x in P` with P a parameter typed
+    `str | list[str]` silently becomes a substring test when the caller passes one name: "Sheet1" then also selects through "Sheet10" — the
+    Table.name setter re-targets named ranges of another table that way.  Rule (expected count 0, fixture evaluated on every run): no
+    `value in P` / `not in P` on a parameter that may be a bare str, unless the value is a literal or str has been excluded.
+    """
+    repo = ctx.repo
+    ctx.rule("R19f", "no `value in parameter` test where the parameter may be a bare str (substring instead of equality) in name/address matching", floor=500)
+    for f in repo.all_funcs():
+        bad = _substring_tests(f.node)
+        ctx.instance("R19f", f"{f.file}:{f.ident}", "no substring test on a str-or-collection parameter", ok=not bad, nontrivial=bool(bad), line=f.node.lineno)
+        for n in bad:
+            ctx.report("R19f", f, n, norm(n, 60),
+                       f"{f.ident}: `{norm(n, 50)}` is a substring test when `{n.comparators[0].id}` is passed as a single str: a name that merely contains (or is contained "
+                       f"in) the requested one is selected too — e.g. renaming table 'Sheet10' re-targets the named ranges of 'Sheet1'")
+    tree = ast.parse(_FIXTURE_F)
+    got = {fn.name: len(_substring_tests(fn)) for fn in tree.body}
+    if got != {"bad": 1, "ok_narrowed": 0, "ok_literal": 0}:
+        raise AnalysisError(f"R19f fixture: substring-test detector broken: {got}")
+
+
 def run(ctx):
     r19a(ctx)
     r19b(ctx)
     r19c(ctx)
     r19d(ctx)
     r19e(ctx)
+    r19f(ctx)
 
 
 from ..selftest import Seed, unparse_seed  # noqa: E402
@@ -591,6 +668,9 @@ from ..selftest import Seed, unparse_seed  # noqa: E402
 _T = "src/odfdo/table.py"
 _R = "src/odfdo/row.py"
 SEEDS = [
+    Seed("named ranges filtered by `in` on the raw table_name argument", "fault", _T, '            if nr.table_name in filter_  # type:ignore', "            if nr.table_name in table_name  # type:ignore", "R19f"),
+    Seed("named ranges filtered on the raw argument once str is excluded", "neutral", _T, "        return [\n            nr\n            for nr in all_named_ranges\n" + '            if nr.table_name in filter_  # type:ignore',
+         "        if not isinstance(table_name, str):\n            return [nr for nr in all_named_ranges if nr.table_name in table_name]\n        return [\n            nr\n            for nr in all_named_ranges\n" + '            if nr.table_name in filter_  # type:ignore'),
     Seed("get_columns bounded by the row component again", "fault", _T,
          "            x, _y, z, _t = self._translate_column_coordinates(coord)\n        else:\n            x = z = None\n        if not style:\n            return list(self.traverse_columns(start=x, end=z))",
          "            x, _y, _z, t = self._translate_column_coordinates(coord)\n        else:\n            x = t = None\n        if not style:\n            return list(self.traverse_columns(start=x, end=t))", "R19a"),
